@@ -8,14 +8,23 @@
 //
 // Protocol on stdin (same as oracle/main.ml):
 //   case <id> | dev tiff|json | fix ... (ignored) | file <path-hex> <hex> (ignored: pre-existing file, made by the caller) |
+//   sw <e> <e> ... (the short-write script: one answer per pwrite call of this case, in call order; calls beyond it transfer
+//                   everything: f = everything | b<c> = at most c bytes (b0 = the zero-length result) | m<c> = all but c, at
+//                   least 1 | h = half, rounded up | p<k> = k/256 of the request, at least 1.  NEVER an error: failures are C16's) |
 //   set <uri-hex> <md: - | e | hex> <sx_p> <sx_q> <sy_p> <sy_q> <sx-hexfloat> <sy-hexfloat> |
 //   snap <k> <src-hex> <dst-hex> (copy a file aside) |
 //   start | append <k> + k "frame <w> <h> <type> <fid> <hwid> <ts_hw> <ts_acq> <data-hex|->" lines | stop | end
 // The files are left on disk for the caller to read.
+//
+// The OS level: the program is linked with -Wl,--wrap=pwrite,--wrap=pwrite64, so every pwrite of linux/platform.c lands
+// in __wrap_pwrite below, which shortens the request as the script says, passes it to the real pwrite and logs
+// (offset, requested, returned).  "end" prints the log: pwrites <n> <offset>:<requested>:<returned> ...
 #include <cstdint>
 #include <cstdio>
 #include <cstdlib>
 #include <cstring>
+#include <sys/types.h>
+#include <unistd.h>
 #include <iostream>
 #include <sstream>
 #include <string>
@@ -53,6 +62,69 @@ extern "C"
 }
 
 static int g_verbose = 0;
+
+// ---------------------------------------------------------------------------------------------------------------------
+// scripted pwrite
+struct SwEntry
+{
+    char kind;  // f b m h p
+    uint64_t arg;
+};
+struct PwCall
+{
+    uint64_t off, req;
+    long long ret;
+};
+static std::vector<SwEntry> g_script;
+static std::vector<PwCall> g_pwlog;
+static size_t g_pwcalls = 0;
+
+static uint64_t
+sw_count(const SwEntry& e, uint64_t n)
+{
+    uint64_t c = n;
+    switch (e.kind) {
+        case 'f':
+            c = n;
+            break;
+        case 'b':
+            c = e.arg;
+            break;
+        case 'm':
+            c = n > e.arg ? n - e.arg : 0;
+            if (c < 1)
+                c = 1;
+            break;
+        case 'h':
+            c = n / 2 + (n & 1);
+            break;
+        case 'p':
+            c = (uint64_t)(((unsigned __int128)n * e.arg) / 256);
+            if (c < 1)
+                c = 1;
+            break;
+    }
+    return c < n ? c : n;
+}
+
+extern "C"
+{
+    ssize_t __real_pwrite(int fd, const void* buf, size_t count, off_t offset);
+    ssize_t __wrap_pwrite(int fd, const void* buf, size_t count, off_t offset)
+    {
+        size_t idx = g_pwcalls++;
+        size_t n = count;
+        if (idx < g_script.size() && count > 0)
+            n = (size_t)sw_count(g_script[idx], count);
+        ssize_t r = (n == 0 && count > 0) ? 0 : __real_pwrite(fd, buf, n, offset);
+        g_pwlog.push_back({ (uint64_t)offset, (uint64_t)count, (long long)r });
+        return r;
+    }
+    ssize_t __wrap_pwrite64(int fd, const void* buf, size_t count, off_t offset)
+    {
+        return __wrap_pwrite(fd, buf, count, offset);
+    }
+}
 
 static void
 reporter(int is_error, const char* file, int line, const char* function, const char* msg)
@@ -131,6 +203,13 @@ main(int argc, char** argv)
         if (w[0] == "case") {
             printf("case %s\n", w.size() > 1 ? w[1].c_str() : "?");
             fflush(stdout);
+            g_script.clear();
+            g_pwlog.clear();
+            g_pwcalls = 0;
+        } else if (w[0] == "sw") {
+            g_script.clear();
+            for (size_t i = 1; i < w.size(); ++i)
+                g_script.push_back({ w[i][0], w[i].size() > 1 ? strtoull(w[i].c_str() + 1, 0, 10) : 0 });
         } else if (w[0] == "dev") {
             if (self)
                 self->destroy(self);
@@ -245,6 +324,10 @@ main(int argc, char** argv)
             if (self)
                 self->destroy(self);
             self = nullptr;
+            printf("pwrites %zu", g_pwlog.size());
+            for (auto& c : g_pwlog)
+                printf(" %llu:%llu:%lld", (unsigned long long)c.off, (unsigned long long)c.req, c.ret);
+            printf("\n");
             printf("endcase\n");
             fflush(stdout);
         } else {
